@@ -34,6 +34,29 @@ type tkEnt struct {
 type tkStore struct {
 	ents []tkEnt
 	ts   uint64
+	hist []tkHist // the committed state after every commit, oldest first (multi-version reads)
+}
+
+type tkHist struct {
+	ts   uint64
+	ents []tkEnt
+}
+
+// tkScanBatch is the number of keys the client fetches per scan request (txnsnapshot's
+// scanBatchSize, client-go v2.0.1): an iteration longer than that is fed by several requests,
+// each of which reads the store at the snapshot's timestamp *when it is sent*.
+const tkScanBatch = 256
+
+// viewAt is the committed state visible at timestamp ts: the newest recorded state whose
+// commit timestamp is <= ts (for a timestamp the oracle has not issued yet this is "whatever is
+// committed now", and it changes with later commits).
+func (in *interp) viewAt(st *tkStore, ts *sym.Term) []tkEnt {
+	for i := len(st.hist) - 1; i >= 0; i-- {
+		if in.r.branch(in.ctx.Cmp(sym.OpULe, in.ctx.Const(64, st.hist[i].ts), ts), "tikv-snapshot-ts") {
+			return live(st.hist[i].ents)
+		}
+	}
+	return nil
 }
 
 type tkTxn struct {
@@ -45,12 +68,50 @@ type tkTxn struct {
 }
 
 type tkSnap struct {
-	view []tkEnt
+	st *tkStore
+	ts *sym.Term
 }
 
+// tkIter: cache = the keys of the last scan request; when it is used up and the request was
+// answered with a full batch, the next request continues behind the last key.
 type tkIter struct {
-	view []tkEnt
-	pos  int
+	snap    *tkSnap
+	reverse bool
+	lo, hi  []*sym.Term // forward: [lo, hi) with empty hi = unbounded; reverse: keys < hi, unbounded below
+	view    []tkEnt
+	pos     int
+	full    bool
+}
+
+func (it *tkIter) fetch(in *interp) {
+	all := in.viewAt(it.snap.st, it.snap.ts)
+	it.view, it.pos = nil, 0
+	if !it.reverse {
+		for _, e := range all {
+			ge := in.ctx.Not(in.bytesLt(e.key, it.lo))
+			lt := in.ctx.T
+			if len(it.hi) > 0 {
+				lt = in.bytesLt(e.key, it.hi)
+			}
+			if in.r.branch(in.ctx.And(ge, lt), "tikv-iter") {
+				it.view = append(it.view, e)
+				if len(it.view) == tkScanBatch {
+					break
+				}
+			}
+		}
+	} else {
+		for i := len(all) - 1; i >= 0; i-- {
+			e := all[i]
+			if len(it.hi) == 0 || in.r.branch(in.bytesLt(e.key, it.hi), "tikv-iter-rev") {
+				it.view = append(it.view, e)
+				if len(it.view) == tkScanBatch {
+					break
+				}
+			}
+		}
+	}
+	it.full = len(it.view) == tkScanBatch
 }
 
 func (it *tkIter) callMethod(in *interp, fr *frame, name string, args []value) value {
@@ -63,6 +124,15 @@ func (it *tkIter) callMethod(in *interp, fr *frame, name string, args []value) v
 		return termsToSlice(append([]*sym.Term(nil), it.view[it.pos].val...))
 	case "Next":
 		it.pos++
+		if it.pos >= len(it.view) && it.full {
+			last := it.view[len(it.view)-1].key
+			if it.reverse {
+				it.hi = last
+			} else {
+				it.lo = append(append([]*sym.Term(nil), last...), in.ctx.Const(8, 0))
+			}
+			it.fetch(in)
+		}
 		return iface{}
 	case "Close":
 		return nil
@@ -197,8 +267,7 @@ func registerTiKV(e *Engine) {
 	e.reg("(*"+tikvPkg+".KVStore).Begin", func(in *interp, fr *frame, a []value) value { return begin(in, storeOf(a[0])) })
 	e.reg("(*"+txnkvPkg+".Client).Begin", func(in *interp, fr *frame, a []value) value { return begin(in, clientStore(in, a[0])) })
 	snapshot := func(in *interp, st *tkStore, ts *sym.Term) value {
-		// the adapter passes a timestamp it just obtained: the snapshot is the current state
-		return box(&tkSnap{view: live(st.ents)})
+		return box(&tkSnap{st: st, ts: ts})
 	}
 	e.reg("(*"+tikvPkg+".KVStore).GetSnapshot", func(in *interp, fr *frame, a []value) value { return snapshot(in, storeOf(a[0]), term(a[1])) })
 	e.reg("(*"+txnkvPkg+".Client).GetSnapshot", func(in *interp, fr *frame, a []value) value {
@@ -267,6 +336,7 @@ func registerTiKV(e *Engine) {
 			w.ts = st.ts
 			st.ents = in.tkPut(st.ents, w)
 		}
+		st.hist = append(st.hist, tkHist{ts: st.ts, ents: append([]tkEnt(nil), st.ents...)})
 		in.sch.wepoch++
 		return iface{}
 	})
@@ -284,36 +354,15 @@ func registerTiKV(e *Engine) {
 		return in.ctx.F
 	})
 	snapOf := func(a []value) *tkSnap { return (*a[0].(*value)).(*tkSnap) }
-	mkIter := func(in *interp, view []tkEnt) value {
-		return tuple{iface{t: in.eng.opaqueType("tikv.iterator"), v: &tkIter{view: view}}, iface{}}
+	mkIter := func(in *interp, it *tkIter) value {
+		it.fetch(in)
+		return tuple{iface{t: in.eng.opaqueType("tikv.iterator"), v: it}, iface{}}
 	}
 	e.reg("(*"+snapPkg+".KVSnapshot).Iter", func(in *interp, fr *frame, a []value) value {
-		s := snapOf(a)
-		k, upper := bytesOf(in, a[1]), bytesOf(in, a[2])
-		var view []tkEnt
-		for _, e := range s.view {
-			ge := in.ctx.Not(in.bytesLt(e.key, k))
-			lt := in.ctx.T
-			if len(upper) > 0 {
-				lt = in.bytesLt(e.key, upper)
-			}
-			if in.r.branch(in.ctx.And(ge, lt), "tikv-iter") {
-				view = append(view, e)
-			}
-		}
-		return mkIter(in, view)
+		return mkIter(in, &tkIter{snap: snapOf(a), lo: bytesOf(in, a[1]), hi: bytesOf(in, a[2])})
 	})
 	e.reg("(*"+snapPkg+".KVSnapshot).IterReverse", func(in *interp, fr *frame, a []value) value {
-		s := snapOf(a)
-		k := bytesOf(in, a[1])
-		var view []tkEnt
-		for i := len(s.view) - 1; i >= 0; i-- {
-			e := s.view[i]
-			if len(k) == 0 || in.r.branch(in.bytesLt(e.key, k), "tikv-iter-rev") {
-				view = append(view, e)
-			}
-		}
-		return mkIter(in, view)
+		return mkIter(in, &tkIter{snap: snapOf(a), reverse: true, hi: bytesOf(in, a[1])})
 	})
 	_ = types.Typ
 }
